@@ -470,7 +470,7 @@ func (m *Machine) runPath(w Work, entry func()) (p *Path) {
 				// a Go-level panic inside the interpreter: an engine defect or an unmodelled
 				// value shape; the path is inconclusive, never a pass
 				p.End = "engine"
-				buf := make([]byte, 2048)
+				buf := make([]byte, 1<<16)
 				buf = buf[:runtime.Stack(buf, false)]
 				p.Inconclusive = append(p.Inconclusive, fmt.Sprintf("engine: internal error: %v", r))
 				if m.Trace {
